@@ -110,7 +110,7 @@ def t_static_trace_choices(E):
     E.refutable("chm.static_trace_choices", E.Not(lookup(E, ch, ("grp", "a"))[0]))
 
 
-@task("chm.or_mask_filter", props=["C17", "C35"], functions=FUNCS)
+@task("chm.or_mask_filter", props=["C17", "C35", "C22"], functions=FUNCS)
 def t_or_mask_filter(E):
     z3 = E.z3
     a, b, c, d = (E.real(n) for n in "abcd")
@@ -149,7 +149,10 @@ def t_or_mask_filter(E):
     n2 = E.call(C_ + "ChoiceMap.d", {("p", "q", "y"): c, ("p", "q", "x"): d, ("p", "s"): d})
     E.prove("C17.ChoiceMap.or.left_biased_union_below_a_shared_prefix_of_length_two", agrees(
         E, E.method(n1, "__or__", n2), {("p", "q", "x"): (True, a), ("p", "q", "y"): (True, c), ("p", "r"): (True, b), ("p", "s"): (True, d)},
-        ("p", "q", "r", "s", "x", "y"), depth=3))
+        ("p", "q", "r", "s", "x", "y"), depth=3),
+        # (C22: StaticTrace.get_choices assembles the trace's choice map from the visited addresses with exactly this union -
+        # two visited tuple addresses sharing two components must both survive)
+        also=["C22"])
     gs2 = E.method(E.method(n1, "__or__", n2), "get_selection")
     E.prove("C17.ChoiceMap.get_selection.of_a_deep_union", E.And(
         E.z(E.method(gs2, "__getitem__", ("p", "q", "y"))) == True, E.z(E.method(gs2, "__getitem__", ("p", "q", "x"))) == True,  # noqa: E712
